@@ -4,6 +4,7 @@ go 1.16
 
 require (
 	github.com/bytom/bytom v0.0.0
+	github.com/pborman/uuid v1.2.1
 	github.com/sirupsen/logrus v1.8.1
 	github.com/tendermint/go-wire v0.16.0
 	github.com/tendermint/tmlibs v0.9.0
